@@ -367,7 +367,8 @@ def splitAudioOnTier(
     orderOfMagnitude = int(math.floor(math.log10(len(entries))))
 
     # We want one more zero in the output than the order of magnitude
-    outputTemplate = "%s_%%0%dd" % (name, orderOfMagnitude + 1)
+    # The name itself may contain '%': escape it before it becomes part of a format string
+    outputTemplate = "%s_%%0%dd" % (name.replace("%", "%%"), orderOfMagnitude + 1)
 
     firstWarning = True
 
